@@ -217,6 +217,10 @@ func (p *Peer) Stop() {
 	p.mu.Lock()
 	db := p.DB
 	bus := p.Bus
+	var private []interface{}
+	for _, s := range p.stores {
+		private = append(private, s.Replicator().EventBus())
+	}
 	p.DB = nil
 	p.stores = map[string]iface.Store{}
 	p.mu.Unlock()
@@ -224,8 +228,13 @@ func (p *Peer) Stop() {
 		return
 	}
 	_ = db.Close()
+	// events delivered to consumers that have exited are never processed:
+	// the accounting of the closed instance's buses is discarded
 	if bus != nil {
 		p.W.H.ForgetBus(bus)
+	}
+	for _, b := range private {
+		p.W.H.ForgetBus(b)
 	}
 	p.W.Signal()
 }
@@ -261,6 +270,7 @@ func (p *Peer) Untrack(s iface.Store) {
 	p.mu.Lock()
 	delete(p.stores, s.Address().String())
 	p.mu.Unlock()
+	p.W.H.ForgetBus(s.Replicator().EventBus())
 }
 
 func (p *Peer) Stores() []iface.Store {
